@@ -8,7 +8,7 @@ needs = " ".join(sys.argv[4:])
 SD = os.environ.get("SEED_DIR", "/tmp/seed")
 store = os.environ.get("STORE_TAG", tag)
 patch = f"{SD}/{pid}{tag}.patch"
-out = subprocess.run(["/verif/tools/seed_eval.sh", pid, patch, demo], capture_output=True, text=True).stdout
+out = subprocess.run(["/verif/tools/seed_eval.sh", pid, patch, demo], capture_output=True).stdout.decode("utf-8", "replace")
 out = "\n".join(l for l in out.splitlines() if not l.startswith("WARNING conda"))
 open(f"{SD}/{pid}{tag}.eval.txt", "w").write(out)
 sec = re.split(r"^== ", out, flags=re.M)
